@@ -410,7 +410,7 @@ class SplineObject(object):
                 args = bases + [self.controlpoints[slices], self.rational]
                 return classes[0](*args, raw=True)
             return SplineObject(bases, self.controlpoints[slices], self.rational, raw=True)
-        return self.controlpoints[slices]
+        return self.controlpoints[slices].copy()
 
     def set_order(self, *order):
         """  Set the polynomial order of the object. If only one argument is
